@@ -7,7 +7,7 @@
    over all sequences, hence over all such orders.  The platform read of a public
    call is a separate step: the thread theorems at the end split every call into
    read and wrap step and quantify over all schedules of any number of threads. *)
-From PV Require Import C10.Spec C10.Proofs C10.ProofsWidth C10.ProofsConc.
+From PV Require Import C10.Spec C10.Proofs C10.ProofsWidth C10.ProofsConc C10.ProofsAbort Gen.C10_Tables.
 
 (* every sequence of wrap_numbers(d, name) / cache_clear(name) / cache_clear() calls
    (unique keys, one tuple width per name): no call fails and every answer is, per
@@ -211,3 +211,38 @@ Theorem C10_threads_unlocked_refuted :
       [Val (0%nat, PDict (eth 100)); Val (1%nat, PDict (eth 200)); Val (0%nat, PDict (eth 350)); Val (1%nat, PDict (eth 410))].
 Proof. exact unlocked_refuted. Qed.
 Print Assumptions C10_threads_unlocked_refuted.
+
+(* exception-atomicity of run().  run() as a sequence of state updates with a possible abort
+   after each ([run_points]): an exception before the first update leaves the state untouched *)
+Theorem C10_abort_first_untouched : forall s f inp, hd s (run_points s f inp) = s.
+Proof. exact abort_first_untouched. Qed.
+Print Assumptions C10_abort_first_untouched.
+
+(* ... the last point is the completed call ... *)
+Theorem C10_abort_last_is_run : forall s f inp s' o,
+  run s f inp = Val (s', o) -> last (run_points s f inp) s = s'.
+Proof. exact abort_last_is_run. Qed.
+Print Assumptions C10_abort_last_is_run.
+
+(* ... and an exception between the offset update and the cache store would leave neither: the next
+   call counts the wrap 100 -> 10 again (210 answered; 110 demanded whether or not the failed call is
+   taken to have happened).  So the code relies on that section never raising: *)
+Theorem C10_abort_in_commit_section_refuted :
+  exists s p, wexec [] abort_pre = Val s /\ nth_error (run_points s (bs "n") abort_call) 1 = Some p /\
+    wtrace p [WRun (bs "n") abort_call] = [Val (ODict [(bs "a", [210])])] /\
+    spec_wtrace_total [] (abort_pre ++ [WRun (bs "n") abort_call]) =
+      [Val (ODict [(bs "a", [100])]); Val (ODict [(bs "a", [110])])] /\
+    spec_wtrace_total [] (abort_pre ++ [WRun (bs "n") abort_call; WRun (bs "n") abort_call]) =
+      [Val (ODict [(bs "a", [100])]); Val (ODict [(bs "a", [110])]); Val (ODict [(bs "a", [110])])].
+Proof. exact abort_in_commit_section_refuted. Qed.
+Print Assumptions C10_abort_in_commit_section_refuted.
+
+(* ... which holds of the source under test (table generated from psutil/_common.py by ast on every
+   run): every call / raise / assert inside run, _remove_dead_reminders, _add_dict is one of the
+   operations that cannot raise there (no I/O, no logging, no user callback) *)
+Theorem C10_commit_section_cannot_raise :
+  forallb op_safe gen_wrap_ops = true /\
+  forallb (fun f => existsb (fun fo => beqb (fst fo) f) gen_wrap_ops)
+          [bs "run"; bs "_remove_dead_reminders"; bs "_add_dict"] = true.
+Proof. exact commit_section_cannot_raise. Qed.
+Print Assumptions C10_commit_section_cannot_raise.
